@@ -87,8 +87,19 @@ def rule_K2(repo: Repo) -> RuleResult:
                 continue
             stmts = [n for n in walk_no_nested(f.node) if isinstance(n, ast.stmt)]
             for n in walk_no_nested(f.node):
-                if not (isinstance(n, ast.Subscript) and isinstance(n.ctx, ast.Load) and isinstance(n.slice, ast.Name)
-                        and n.slice.id in codes):
+                # M[C]  |  M.take(C)  |  np.take(M, C): all index the table M by the codes C (negative C counts from the end)
+                table = None
+                C = None
+                if isinstance(n, ast.Subscript) and isinstance(n.ctx, ast.Load) and isinstance(n.slice, ast.Name) \
+                        and n.slice.id in codes:
+                    table, C = n.value, n.slice.id
+                elif isinstance(n, ast.Call) and isinstance(n.func, ast.Attribute) and n.func.attr == "take" and n.args \
+                        and isinstance(n.args[0], ast.Name) and n.args[0].id in codes and norm(n.func.value) not in ("np", "numpy"):
+                    table, C = n.func.value, n.args[0].id
+                elif isinstance(n, ast.Call) and norm(n.func) in ("np.take", "numpy.take") and len(n.args) >= 2 \
+                        and isinstance(n.args[1], ast.Name) and n.args[1].id in codes:
+                    table, C = n.args[0], n.args[1].id
+                if table is None:
                     continue
                 # is this a code -> code re-mapping?  (the value flows into a codes variable / the grouping's codes)
                 st = _stmt_containing(f, n)
@@ -102,13 +113,12 @@ def rule_K2(repo: Repo) -> RuleResult:
                 flows_to_codes = tname in codes or _flows_to_group_ikey(f, tname)
                 if not flows_to_codes:
                     continue
-                if base_name(n) in codes and isinstance(n.value, ast.Name) and n.value.id in codes:
+                if isinstance(table, ast.Name) and table.id in codes:
                     continue
                 n_sites += 1
-                C = n.slice.id
                 construct = norm(st)
                 # idiom (iii): trailing -1 slot
-                base = n.value
+                base = table
                 if isinstance(base, ast.Call) and norm(base.func) in ("np.append", "numpy.append") and len(base.args) == 2 \
                         and const_int(base.args[1]) == -1:
                     res.ok(f, n, construct, "idiom iii: table extended with a trailing -1 slot, so -1 maps to -1")
